@@ -3,7 +3,7 @@ import ast
 
 from ..interp import Tok, Val, TRUE, FALSE, pure_sym
 from ..karr import Lin
-from ..model import M, N, R, NPREV, RPREV, ONE, prove_eq, prove_ge
+from ..model import M, N, R, NPREV, RPREV, ONE, prove_eq, prove_ge, prove_eq_cases
 
 WORK = Tok("StorageType.WORK")
 RAM = Tok("StorageType.RAM")
